@@ -8,8 +8,8 @@
    [CTL] is the controller's address, [INDEXER] the indexer address (sender of the
    deployment, of deposits and of withdrawals).  The pkscript hash [H_addr] and the
    lower-casing [lower] are opaque functions; nothing is assumed about them. *)
-From Brc.Model Require Import Base Ledger.
-From Brc.Proofs Require Import LedgerP.
+From Brc.Model Require Import Base Ledger LedgerChain.
+From Brc.Proofs Require Import LedgerP LedgerChainP.
 
 (* ---------------------------------------------------------------------------------------
    supply_is_sum.  After ANY sequence of message calls (any sender, the owners included, any
@@ -189,6 +189,55 @@ Proof. exact controller_transfer_needs_allowance. Qed.
 Print Assumptions C07_controller_transfer_needs_allowance_for_controller.
 
 (* ---------------------------------------------------------------------------------------
+   Across reorgs.  A history is now a sequence of operations, block boundaries and reorgs
+   ([KReorg d]: the newest d blocks and whatever was pending are gone; the ledger resumes from
+   the snapshot the versioned tables kept for that block - the snapshot stack is the one the
+   correspondence checker Tie07.l_check runs against the engine).  [surviving] is computed on
+   the history alone.  The ledger after ANY such history is the plain run of the surviving
+   operations, so the accounting identities hold across reorgs, read over what survives. *)
+Section AcrossReorgs.
+  Variable H_addr : list N -> addr.
+  Variable lower : list N -> ticker.
+  Variable INDEXER CTL : addr.
+
+  Theorem C07_ledger_after_reorgs_is_run_of_survivors :
+    forall (is : list item),
+      fst (c_run H_addr lower INDEXER CTL is)
+      = g_run H_addr lower INDEXER CTL (g_init INDEXER) (surviving is).
+  Proof. exact (ledger_after_reorgs H_addr lower INDEXER CTL). Qed.
+
+  Theorem C07_ledger_accounting_across_reorgs :
+    forall (is : list item) (p t : list N),
+      user_sender_not_indexer INDEXER CTL (surviving is) -> H_addr p <> 0 ->
+      let a := H_addr p in
+      let tr := g_trace H_addr lower INDEXER CTL (g_init INDEXER) (surviving is) in
+      glue_balance H_addr lower (fst (c_run H_addr lower INDEXER CTL is)) p t
+      + nsum (map (op_wd_from H_addr lower (lower t) a) tr) + nsum (map (op_sent (lower t) a) tr)
+      = nsum (map (op_dep_to H_addr lower (lower t) a) tr) + nsum (map (op_recv (lower t) a) tr).
+  Proof. exact (accounting_across_reorgs H_addr lower INDEXER CTL). Qed.
+
+  Theorem C07_supply_only_from_bridge_across_reorgs :
+    forall (is : list item) (t : ticker),
+      user_sender_not_indexer INDEXER CTL (surviving is) ->
+      let tr := g_trace H_addr lower INDEXER CTL (g_init INDEXER) (surviving is) in
+      match supply (fst (c_run H_addr lower INDEXER CTL is)) t with Some s => s | None => 0 end
+      + nsum (map (op_wd lower t) tr)
+      = nsum (map (op_dep lower t) tr).
+  Proof. exact (supply_across_reorgs H_addr lower INDEXER CTL). Qed.
+
+  Theorem C07_supply_is_sum_across_reorgs :
+    forall (is : list item) (t : ticker) (s : N),
+      supply (fst (c_run H_addr lower INDEXER CTL is)) t = Some s ->
+      let st := fst (c_run H_addr lower INDEXER CTL is) in
+      NoDup (holders st t) /\ s = nsum (map (balance st t) (holders st t)) /\ s < 2 ^ 256.
+  Proof. exact (supply_is_sum_across_reorgs H_addr lower INDEXER CTL). Qed.
+End AcrossReorgs.
+Print Assumptions C07_ledger_after_reorgs_is_run_of_survivors.
+Print Assumptions C07_ledger_accounting_across_reorgs.
+Print Assumptions C07_supply_only_from_bridge_across_reorgs.
+Print Assumptions C07_supply_is_sum_across_reorgs.
+
+(* ---------------------------------------------------------------------------------------
    Non-vacuity: concrete histories.  INDEXER = 0x3ca6, a made-up controller address, a toy
    pkscript hash, ASCII/Latin-1 lower-casing. *)
 Module Ex.
@@ -264,5 +313,20 @@ Module Ex.
     | Ok s => balance s ordi 1001 = 90 /\ balance s ordi 1002 = 10 /\ supply s ordi = Some 100
     | _ => False
     end.
+  Proof. vm_compute. repeat split. Qed.
+  (* across reorgs: a deposit in block 1, a transfer and a withdrawal in block 2, a pending
+     deposit, then a reorg that drops block 2 and the pending deposit; a refused reorg (the
+     chain is not that long) changes nothing *)
+  Definition k1 : list item :=
+    [ KOp (ODeposit alice ORDI 100); KBlock;
+      KOp (OUser (CallTok 1001 ordi (TTransfer 1002 30))); KOp (OWithdraw bob ordi 30); KBlock;
+      KOp (ODeposit bob ORDI 7);
+      KReorg 1; KReorg 5;
+      KOp (OUser (CallTok 1001 ordi (TTransfer 1002 1))) ].
+  Example C07_nonvacuous_across_reorgs :
+    surviving k1 = [ODeposit alice ORDI 100; OUser (CallTok 1001 ordi (TTransfer 1002 1))] /\
+    let st := fst (c_run H lower_bytes INDEXER CTL k1) in
+    bal st alice ordi = 99 /\ bal st bob ordi = 1 /\ supply st ordi = Some 100 /\
+    length (snd (c_run H lower_bytes INDEXER CTL k1)) = 2%nat.
   Proof. vm_compute. repeat split. Qed.
 End Ex.
